@@ -1,6 +1,7 @@
 package main
 
 import (
+	"go/types"
 	"crypto/sha256"
 	"encoding/json"
 	"flag"
@@ -167,6 +168,24 @@ func generate(w *World, cs *Contracts, ms *ModSets, o runOpts) ([]*Obligation, [
 			os.MkdirAll(filepath.Join(verifDir, "out", "ivl"), 0o755)
 			os.WriteFile(filepath.Join(verifDir, "out", "ivl", sanitize(key)+".smt2"), []byte(strings.Join(vc.cmds, "\n")), 0o644)
 		}
+	}
+	// ownership declarations: every store into a unique field must store an object created in the same function
+	for _, ud := range cs.Uniques {
+		if !hasProp(ud.Props, o.property) || o.only != "" {
+			continue
+		}
+		name := ud.Pkg + "." + ud.Type + "." + ud.Field
+		rep := &FuncReport{Key: "unique " + name}
+		reps = append(reps, rep)
+		bad := uniqueViolations(w, ud)
+		ob := &Obligation{Name: name + ":unique.writers", Kind: "unique", Func: name, Goal: "true", Props: ud.Props,
+			Text:   "every store into " + name + " stores a map/slice/object freshly created in the storing function",
+			Result: &SolveResult{Status: "unsat", Backend: "static-scan"}}
+		if len(bad) > 0 {
+			ob.Result = &SolveResult{Status: "sat", Backend: "static-scan", Output: "stores of a value that is not freshly created: " + strings.Join(bad, "; ")}
+		}
+		obls = append(obls, ob)
+		rep.Obligations = 1
 	}
 	for _, lm := range cs.Lemmas {
 		if !hasProp(lm.Props, o.property) || (o.only != "" && o.only != lm.Name) {
@@ -372,4 +391,76 @@ func selfcheck() int {
 	}
 	fmt.Println("govc selfcheck ok")
 	return 0
+}
+
+// uniqueViolations scans the module for stores into the field that do not store a freshly made object.
+func uniqueViolations(w *World, ud UniqueDecl) []string {
+	var bad []string
+	for path, sp := range w.SSAPkgs {
+		if !strings.HasPrefix(path, modulePath) {
+			continue
+		}
+		var fns []*ssa.Function
+		var add func(f *ssa.Function)
+		seen := map[*ssa.Function]bool{}
+		add = func(f *ssa.Function) {
+			if f == nil || seen[f] {
+				return
+			}
+			seen[f] = true
+			fns = append(fns, f)
+			for _, a := range f.AnonFuncs {
+				add(a)
+			}
+		}
+		for _, mem := range sp.Members {
+			switch x := mem.(type) {
+			case *ssa.Function:
+				add(x)
+			case *ssa.Type:
+				for _, T := range []types.Type{x.Type(), types.NewPointer(x.Type())} {
+					ms := w.Prog.MethodSets.MethodSet(T)
+					for i := 0; i < ms.Len(); i++ {
+						add(w.Prog.MethodValue(ms.At(i)))
+					}
+				}
+			}
+		}
+		for _, f := range fns {
+			for _, b := range f.Blocks {
+				for _, ins := range b.Instrs {
+					st, ok := ins.(*ssa.Store)
+					if !ok {
+						continue
+					}
+					fa, ok := st.Addr.(*ssa.FieldAddr)
+					if !ok {
+						continue
+					}
+					pt, ok := fa.X.Type().Underlying().(*types.Pointer)
+					if !ok {
+						continue
+					}
+					n, ok := types.Unalias(pt.Elem()).(*types.Named)
+					if !ok || n.Obj().Pkg() == nil || n.Obj().Pkg().Name() != ud.Pkg || n.Obj().Name() != ud.Type {
+						continue
+					}
+					if n.Underlying().(*types.Struct).Field(fa.Field).Name() != ud.Field {
+						continue
+					}
+					switch v := st.Val.(type) {
+					case *ssa.MakeMap, *ssa.MakeSlice, *ssa.Alloc:
+						continue
+					case *ssa.Const:
+						if v.IsNil() {
+							continue
+						}
+					}
+					bad = append(bad, funcKey(f)+" at "+w.Fset.Position(st.Pos()).String())
+				}
+			}
+		}
+	}
+	sort.Strings(bad)
+	return bad
 }
